@@ -153,11 +153,11 @@ func cmdVC(args []string) {
 					bad++
 				}
 			} else if r.Obl.Kind == "smoke" {
-				if r.Answer.Result == "sat" {
-					status = "OK  "
-				} else {
+				if r.Answer.Result == "unsat" {
 					status = "VACUOUS"
 					bad++
+				} else if r.Answer.Result != "sat" {
+					status = "meta"
 				}
 			} else if r.Answer.Result != "unsat" {
 				status = "FAIL"
